@@ -1483,3 +1483,177 @@ Proof.
       * intros H; inversion H; subst; split; [reflexivity|left; reflexivity].
     + destruct (fn =? fn_read); intros H; inversion H; subst; split; try reflexivity; left; reflexivity.
 Qed.
+
+(* ---------- on_rx ---------- *)
+Lemma resume_at_proc cfg st s s' o :
+  pre st s -> resume_at cfg st s = (s', o) -> ir_res cfg s s' o /\ J s'.
+Proof.
+  unfold resume_at. intros Hpre H. split; [eapply idle_run_safe; eauto|eapply idle_run32_J; eauto].
+Qed.
+
+Lemma idle_loop_proc cfg s s' o :
+  pre St1 s -> idle_loop 8 cfg s = (s', o) -> ir_res cfg s s' o /\ J s'.
+Proof.
+  rewrite idle_loop8. intros Hpre H. split; [eapply idle_run_safe; eauto|eapply idle_run32_J; eauto].
+Qed.
+
+Definition fproc : list fld := [FNow; FFid; FSelSt; FOpSt; FPend].
+
+Lemma proc_pres cfg sm fr s2 o2 : proc cfg sm fr s2 o2 -> pres fproc sm s2.
+Proof.
+  destruct fr as [[[[from bc] bytes] d] fid]. intros [H|[resp [res H]]].
+  - apply handle_from_idle_spec in H. destruct H as [A _]. eapply pres_sub; [|exact A]. reflexivity.
+  - apply unsol_wait_fragment_spec in H. destruct H as [A _]. eapply pres_sub; [|exact A]. reflexivity.
+Qed.
+
+Definition rx_mid (s sm : ostate) (fid : N) : Prop :=
+  s_frame_id sm = fid /\ s_now sm = s_now s /\ s_sel_status sm = s_sel_status s /\
+  s_op_status sm = s_op_status s /\ s_select sm = s_select s /\ s_last sm = s_last s /\ s_pending sm = None.
+
+Definition rx_res (Q : ostate -> ostate -> list oobs -> Prop) (cfg : ocfg) (s : ostate) (from : N)
+           (bc : option bcast_mode) (bytes : list N) (d : digest) (fid : N) (s' : ostate) (out : list oobs) : Prop :=
+  (no_cb out /\ s_select s' = s_select s /\ skipped cfg from bc d) \/
+  (exists sm s2 o1 o2 o3, out = o1 ++ o2 ++ o3 /\ no_cb o1 /\ rx_mid s sm fid /\
+     proc cfg sm (from, bc, bytes, d, fid) s2 o2 /\
+     (s_deferred sm = None \/ exists resp res, unsol_wait_fragment cfg sm resp from bc bytes d fid = (s2, res, o2)) /\
+     Q s2 s' o3).
+
+Definition frx : list fld := [FNow; FSelSt; FOpSt].
+
+Lemma frx_intro s s' :
+  s_now s' = s_now s -> s_sel_status s' = s_sel_status s -> s_op_status s' = s_op_status s -> pres frx s s'.
+Proof. intros. unfold pres, frx. repeat constructor; assumption. Qed.
+
+
+(* the common part: a pending fragment run through the idle loop *)
+Lemma pending_run cfg s s1 fid from bc bytes d s' o oa :
+  J s -> s_deferred s = None ->
+  pres [FNow; FSelSt; FOpSt; FSel; FDef; FLast] s s1 -> s_frame_id s1 = fid ->
+  s_pending s1 = Some (from, bc, bytes, d, fid) -> no_cb oa ->
+  ir_res cfg s1 s' o -> J s' ->
+  pres frx s s' /\ s_frame_id s' = fid /\ rx_res quiet cfg s from bc bytes d fid s' (oa ++ o).
+Proof.
+  intros HJ Hd P1 F1 Hp1 Hoa Hir HJ'.
+  destruct Hir as [[_ Hp]|[fr [sm [s2 [o1 [o2 [o3 [Pa [Qa [Pb [Hpr [Qb [Pc Ho]]]]]]]]]]]]].
+  { exfalso. destruct HJ' as [HJ' _]. congruence. }
+  rewrite Hp1 in Pa. inversion Pa; subst fr. clear Pa.
+  pose proof (proc_pres _ _ _ _ _ Hpr) as P2.
+  destruct Qa as [Qa1 [Qa2 Qa3]]. destruct Qb as [Qb1 [Qb2 Qb3]].
+  pget FNow P1. pget FSelSt P1. pget FOpSt P1. pget FSel P1. pget FDef P1. pget FLast P1.
+  pget FNow Qa1. pget FFid Qa1. pget FSelSt Qa1. pget FOpSt Qa1. pget FSel Qa1.
+  pget FNow P2. pget FFid P2. pget FSelSt P2. pget FOpSt P2.
+  pget FNow Qb1. pget FFid Qb1. pget FSelSt Qb1. pget FOpSt Qb1.
+  assert (Hd1 : s_deferred s1 = None) by congruence.
+  destruct (Qa3 Hd1) as [Dm Lm].
+  split; [apply frx_intro; congruence|].
+  split; [congruence|].
+  right. exists sm, s2, (oa ++ o1), o2, o3.
+  split; [rewrite Ho, <- app_assoc; reflexivity|]. split; [apply no_cb_app; auto|].
+  split; [unfold rx_mid; repeat split; congruence|]. split; [exact Hpr|]. split; [left; exact Dm|].
+  split; [exact Qb1|auto].
+Qed.
+
+Lemma on_rx_spec cfg s from bc bytes d s' out :
+  J s -> on_rx cfg s from bc bytes d = (s', out) ->
+  let fid := (s_frame_id s + 1) mod 4294967296 in
+  J s' /\ pres frx s s' /\ s_frame_id s' = fid /\ rx_res quiet cfg s from bc bytes d fid s' out.
+Proof.
+  intros HJ H fid. pose proof HJ as [Jp Jd]. unfold on_rx in H. fold fid in H.
+  set (s0 := upd_frame_id s fid) in *.
+  assert (P0 : pres [FNow; FSelSt; FOpSt; FSel; FDef; FLast; FPend; FCtl; FNotify] s s0) by (subst s0; pres_now).
+  change (s_control s0) with (s_control s) in H.
+  destruct (s_control s) as [|se dl r|resp is_null retries dl] eqn:Ec.
+  - (* idle *)
+    destruct Jd as [Jd|Jd]; [|destruct Jd].
+    apply idle_loop_proc in H; [|split; [exact Ec|exact Jd]]. destruct H as [Hir HJ'].
+    split; [exact HJ'|].
+    change out with ([] ++ out).
+    eapply (pending_run cfg s (upd_pending s0 (Some (from, bc, bytes, d, fid)))); eauto; try reflexivity.
+    subst s0. pres_now.
+  - (* solicited confirm wait *)
+    destruct Jd as [Jd|Jd]; [|destruct Jd].
+    destruct (sol_wait_fragment cfg s0 se dl from bc bytes d) as [outc o] eqn:Es.
+    apply sol_wait_fragment_spec in Es. destruct Es as [Ho Hsk].
+    destruct outc as [dl'|respond_to|].
+    + destruct Hsk as [Hsk|Hsk]; [discriminate Hsk|]. inversion H; subst s' out. clear H.
+      split; [split; [exact Jp|left; exact Jd]|]. split; [subst s0; pres_now|]. split; [reflexivity|].
+      left. split; [exact Ho|]. split; [reflexivity|exact Hsk].
+    + destruct Hsk as [Hsk|Hsk]; [discriminate Hsk|].
+      set (s1 := upd_last_bcast s0 None) in *.
+      assert (P1 : pres [FNow; FSelSt; FOpSt; FSel; FDef; FLast; FPend; FCtl; FNotify] s s1) by (subst s1 s0; pres_now).
+      assert (F1 : s_frame_id s1 = fid) by reflexivity.
+      pose proof P1 as P1'.
+      pget FNow P1'. pget FSelSt P1'. pget FOpSt P1'. pget FSel P1'. pget FDef P1'. pget FPend P1'.
+      clearbody s1. clear P1'.
+      destruct (se_fin se).
+      * destruct (resume_at cfg (stage_of r) (upd_control s1 CIdle)) as [s2 o2] eqn:Er.
+        inversion H; subst s' out. clear H.
+        apply resume_at_spec in Er; [|apply stage_of_pre; [reflexivity|prj; congruence]|prj; congruence].
+        destruct Er as [[Q1 [Q2 Q3]] J2]. split; [exact J2|].
+        pget FNow Q1. pget FFid Q1. pget FSelSt Q1. pget FOpSt Q1. pget FSel Q1. prj.
+        split; [apply frx_intro; congruence|]. split; [congruence|].
+        left. split; [apply no_cb_app; split; [exact Ho|apply no_cb_cons; split; [reflexivity|exact Q2]]|].
+        split; [congruence|exact Hsk].
+      * destruct (format_read_response s1 false (seq16_next (se_ecsn se)) 0) as [[[s2 rsp] next] o2] eqn:Ef.
+        apply format_read_response_pres in Ef. destruct Ef as [A2 B2].
+        destruct (write_solicited s2 respond_to rsp) as [[s3 rsp'] o3] eqn:Ew.
+        apply write_solicited_pres in Ew. destruct Ew as [A3 [B3 _]].
+        set (s4 := upd_last s3 match s_last s3 with
+                               | Some l => Some {| lr_seq := lr_seq l; lr_bytes := lr_bytes l; lr_response := Some rsp'; lr_series := lr_series l |}
+                               | None => None end) in *.
+        assert (PP4 : pres [FNow; FFid; FSelSt; FOpSt; FSel; FDef; FPend] s1 s4).
+        { apply (pres_trans2 fnobuf [FNow; FFid; FSelSt; FOpSt; FSel; FDef; FPend] [FNow; FFid; FSelSt; FOpSt; FSel; FDef; FPend] _ s2 _ eq_refl eq_refl A2).
+          apply (pres_trans2 fall [FNow; FFid; FSelSt; FOpSt; FSel; FDef; FPend] [FNow; FFid; FSelSt; FOpSt; FSel; FDef; FPend] _ s3 _ eq_refl eq_refl A3).
+          subst s4. pres_now. }
+        pget FNow PP4. pget FFid PP4. pget FSelSt PP4. pget FOpSt PP4. pget FSel PP4. pget FDef PP4. pget FPend PP4. clearbody s4.
+        assert (Hno : no_cb (o ++ [ODb DbClearWritten] ++ o2 ++ o3)).
+        { apply no_cb_app; split; [exact Ho|]. apply no_cb_cons; split; [reflexivity|]. apply no_cb_app; auto. }
+        destruct next as [n|].
+        -- inversion H; subst s' out. clear H. prj.
+           split; [split; [prj; congruence|left; prj; congruence]|].
+           split; [apply frx_intro; prj; congruence|]. split; [prj; congruence|].
+           left. split; [exact Hno|]. split; [prj; congruence|exact Hsk].
+        -- destruct (resume_at cfg (stage_of r) (upd_control s4 CIdle)) as [s5 o5] eqn:Er.
+           inversion H; subst s' out. clear H.
+           apply resume_at_spec in Er; [|apply stage_of_pre; [reflexivity|prj; congruence]|prj; congruence].
+           destruct Er as [[Q1 [Q2 Q3]] J5]. split; [exact J5|].
+           pget FNow Q1. pget FFid Q1. pget FSelSt Q1. pget FOpSt Q1. pget FSel Q1. prj.
+           split; [apply frx_intro; congruence|]. split; [congruence|].
+           left. split; [|split; [congruence|exact Hsk]].
+           replace (o ++ [ODb DbClearWritten] ++ o2 ++ o3 ++ o5) with ((o ++ [ODb DbClearWritten] ++ o2 ++ o3) ++ o5).
+           ++ apply no_cb_app; auto.
+           ++ rewrite <- !app_assoc. reflexivity.
+    + destruct (resume_at cfg (stage_of r) (upd_pending (upd_control s0 CIdle) (Some (from, bc, bytes, d, fid)))) as [s2 o2] eqn:Er.
+      inversion H; subst s' out. clear H.
+      apply resume_at_proc in Er; [|apply stage_of_pre; [reflexivity|exact Jd]]. destruct Er as [Hir HJ'].
+      split; [exact HJ'|].
+      replace (o ++ [ODb DbReset] ++ o2) with ((o ++ [ODb DbReset]) ++ o2) by (rewrite <- app_assoc; reflexivity).
+      eapply (pending_run cfg s (upd_pending (upd_control s0 CIdle) (Some (from, bc, bytes, d, fid)))); eauto; try reflexivity.
+      * subst s0. pres_now.
+      * apply no_cb_app; split; [exact Ho|reflexivity].
+  - (* unsolicited confirm wait *)
+    destruct (unsol_wait_fragment cfg s0 resp from bc bytes d fid) as [[s1 res] o] eqn:Eu.
+    pose proof (unsol_wait_fragment_spec _ _ _ _ _ _ _ _ _ _ _ Eu) as [A1 _].
+    assert (Hpr : proc cfg s0 (from, bc, bytes, d, fid) s1 o) by (right; eauto).
+    assert (Hmid : rx_mid s s0 fid) by (unfold rx_mid; subst s0; prj; repeat split; auto).
+    pget FNow A1. pget FFid A1. pget FSelSt A1. pget FOpSt A1. pget FPend A1. pget FCtl A1. prj.
+    destruct res as [r|].
+    + destruct (end_unsol cfg s1 is_null r) as [[s2 ns] o2] eqn:Ee.
+      apply end_unsol_spec in Ee. destruct Ee as [A2 [B2 C2]].
+      destruct (resume_at cfg (St3 ns) s2) as [s3 o3] eqn:Er.
+      inversion H; subst s' out. clear H.
+      assert (Hp2 : s_pending s2 = None) by (pget FPend A2; congruence).
+      apply resume_at_spec in Er; [|split; [exact C2|left; exact Hp2]|exact Hp2].
+      destruct Er as [Q3 J3]. split; [exact J3|].
+      assert (Q2 : quiet s1 s2 o2) by (apply (quiet_of_pres fnoctl); [reflexivity|exact A2|exact B2]).
+      pose proof (quiet_trans _ _ _ _ _ Q2 Q3) as Q23. destruct Q23 as [Qa Qb].
+      pget FNow Qa. pget FFid Qa. pget FSelSt Qa. pget FOpSt Qa.
+      split; [apply frx_intro; congruence|]. split; [congruence|].
+      right. exists s0, s1, [], o, (o2 ++ o3). split; [reflexivity|]. split; [reflexivity|].
+      split; [exact Hmid|]. split; [exact Hpr|]. split; [right; eauto|]. split; [exact Qa|exact Qb].
+    + inversion H; subst s' out. clear H.
+      split; [split; [congruence|right; rewrite P4, Ec; exact I]|].
+      split; [apply frx_intro; congruence|]. split; [congruence|].
+      right. exists s0, s1, [], o, []. split; [rewrite app_nil_r; reflexivity|]. split; [reflexivity|].
+      split; [exact Hmid|]. split; [exact Hpr|]. split; [right; eauto|apply quiet_refl].
+Qed.
